@@ -207,7 +207,7 @@ Definition parse_condition (fuel : nat) : prog (option expr) :=
 Definition parse_dimension (fuel : nat) : prog expr :=
   re <- parse_regex orc ;;
   match re with
-  | Some r => Ret (RegexLit r)
+  | Some r => consume_ws ;;; Ret (RegexLit r)
   | None =>
       e <- parse_expr orc fuel ;;
       consume_ws ;;;
